@@ -5,6 +5,7 @@ from .. import gen, install, loops
 from ..common import COSTS, DISTANCES, ORDERS, cost, distance, order, pick, shard_count
 
 META = {
+    'refill': True,      # cases presented in a reused buffer are followed by a refill of that buffer (runner)
     'rule': ('cases = curve x 5 metrics x 2 distances x 3 orderings x threshold placed around the curve\'s own global-cost '
              'ladder {cost(S_k)} (so that k* spreads over 2..n) x min_points in 0..n+2 x shuffled threshold lists for '
              'min_point_rdp; the monitors on grdp / mp_grdp / min_point_rdp recompute the fixed-size chain S_k with the '
